@@ -16,6 +16,7 @@ drives the real code, serialises and counts.
 import json
 import os
 import random
+import sys
 import time
 
 from harness import common
@@ -350,7 +351,16 @@ def _run_entry(ep, obj, item, idmap):
         return S['gt'].BuildOptions(allow_key_edits=ake, auto_match_keys=amk,
                                     check_for_cycles=bool(item['check']), ignore_cycles=bool(item['ignore']))
     if ep == 'json':
-        st, t = _guarded(lambda: S['json'].build_tree(obj, options=opts()))
+        # json.build_tree recurses (and has no cycle check: RecursionError on cyclic input).  Run it under
+        # CPython's default recursion limit instead of harness/worker.py's 10000: generated graphs are at most
+        # a dozen levels deep, and the RecursionError of a cyclic input then arrives well inside the guard
+        # (with 10000 a cyclic dict with nested sub-dicts needed > 10 s on a loaded machine).
+        lim = sys.getrecursionlimit()
+        sys.setrecursionlimit(1000)
+        try:
+            st, t = _guarded(lambda: S['json'].build_tree(obj, options=opts()))
+        finally:
+            sys.setrecursionlimit(lim)
     elif ep == 'basic':
         st, t = _guarded(lambda: S['builder'].BasicBuilder(opts()).build_tree(obj))
     else:
